@@ -128,6 +128,8 @@ def feed(ctx, ent, data, kind, stats, cname):
             dict(entry=ent.name, curve=cname, input=data, kind=kind), _repro(ent.name, data, cname))
     k = (ent.name, kind.split(":")[0], out)
     stats[k] = stats.get(k, 0) + 1
+    if ctx.want(ent.name) and kind not in ("truncate",) and len(data) > 4:
+        ctx.case(ent.name, key=None, nontrivial=False, n=0, sample=dict(entry=ent.name, mutation=kind, input=data if not isinstance(data, str) else data[:200], outcome=out))
 
 
 def _repro(name, data, cname):
